@@ -714,6 +714,7 @@ pub fn override_sweep(
     let (pre0, pins) = lc.pins(&c.asg);
     let honest = lc.cso.run(&pre0, &pins, true);
     let honest_vals = honest.pw.values.clone();
+    let mask = lc.cso.random_reps(&honest);
     let ngen = honest.gen_outputs.len();
     let gen_ids = &lc.cso.gen_ids;
     let idxs: Vec<usize> = (0..ngen).filter(|g| g % stride == offset % stride).collect();
@@ -756,7 +757,7 @@ pub fn override_sweep(
             let ev = lc.cso.eval(&run);
             rep.eval();
             rep.count("override_tried");
-            let effective = run.pw.values != honest_vals;
+            let effective = lc.cso.differs(&run.pw.values, &honest_vals, &mask);
             if !effective {
                 rep.count("override_ineffective");
                 continue;
